@@ -16,7 +16,7 @@ func init() {
 		Technique:   "who-may-write of the notice ordering fields; guarded-sink / ordering reachability on State.AddNotice, NoticeFilter.matches, State.WaitNotices, daemon.getNotices/getNotice and noticeViewableByUser",
 		Explanation: "Structural necessary conditions for 'notices are delivered exactly once, in order, only to their owner': (R1) Notice.lastRepeated and State.lastNoticeTimestamp are written only by AddNotice and by unmarshalling; (R2) in AddNotice the timestamp taken from the clock is either strictly after the last one or replaced by last+1ns, and every path that inserts a notice or moves lastRepeated broadcasts on the condition variable; (R3) NoticeFilter.matches answers true only across the user, type, key and strictly-after tests, and Notices sorts by lastRepeated with Before on the two indexed elements; (R4) daemon.getNotices filters by the requester's own uid unless it was reassigned under requestUID==0, never touches the state when the uid is unknown, and getNotice returns the notice only across noticeViewableByUser (public | root | same uid); (R5) WaitNotices checks ctx.Err() and re-evaluates the filter after every wake-up, and the cancel hook broadcasts under the condition's lock; (R6) an additional occurrence moves lastRepeated only across the repeat-after window given with THAT occurrence (options.RepeatAfter zero or elapsed since lastRepeated), and every noticeKey literal sets all identifying fields, so notices of different owners never share a map entry.",
 		NotDecided:  "exactly-once over histories; same-tick additions across a reload; repeat-after arithmetic; client-side use of the `after` cursor.",
-		Run:         runC08,
+		Run:         func(c *Ctx) { runC08(c); runC08z(c) },
 	})
 }
 
